@@ -116,7 +116,7 @@ def run_pipeline(prop, fam, tier, seed, work, jh, specdir, stats):
     stats["v_transitions"] = gen
     return cases, trace, verdicts
 
-def corrupt(ev):
+def corrupt(ev, module="TraceEval"):
     """One recorded field of an accepted trace line changed into something no reading of the
     specification allows; None when the line has nothing suitable.  (Binding self-test, DESIGN.md 13.5.)"""
     e = json.loads(json.dumps(ev))
@@ -129,6 +129,16 @@ def corrupt(ev):
             return e
         if out.get("o") == "undef":
             e["out"] = {"o": "val", "r": marker}
+            return e
+        return None
+    if kind == "Lex" and module == "TraceParse":
+        # the recorded tree / the recorded acceptance is changed
+        if out.get("o") == "ok" and "ast" in e and e["ast"].get("k") != "Null":
+            e["ast"] = {"k": "Null"}
+            return e
+        if out.get("o") == "err":
+            e["out"] = {"o": "ok", "nil_expr": False}
+            e["ast"] = {"k": "Null"}
             return e
         return None
     if kind == "Lex":
@@ -193,7 +203,7 @@ def binding_selftest(fam, work, specdir, evs, verdicts, stats, rnd):
         k = evs[i].get("ev")
         if perkind.get(k, 0) >= 40:
             continue
-        c = corrupt(evs[i])
+        c = corrupt(evs[i], (fam.get("trace_by_ev") or {}).get(k, fam.get("trace_module", "TraceEval")))
         if c is None:
             continue
         perkind[k] = perkind.get(k, 0) + 1
@@ -350,6 +360,9 @@ def c06_main(prop, tier, seed, a):
             raise Infra("schedule replay failed: " + r.stderr[-2000:])
         cev = load_trace(ctrace)
         notf = [e for e in cev.values() if e["ev"] == "NotFollowed"]
+        # a closing Reset: TraceCall accepts it only if the last history ran to its end
+        with open(ctrace, "a") as f:
+            f.write(json.dumps({"ev": "Reset", "id": max(cev) + 1, "trees": []}) + "\n")
         # protocol events against JCall
         txt, g1, d1 = run_tlc_raw(specdir, "TraceCall", ctrace, 300)
         proto_bad = None
@@ -361,6 +374,20 @@ def c06_main(prop, tier, seed, a):
             raise Infra("a schedule could not be followed by the real code (gate hooks moved?): %s" % notf[0].get("why"))
         elif "No error has been found" not in txt:
             raise Infra("TraceCall did not complete:\n" + txt[-2000:])
+        # binding self-test: the same trace with one protocol event missing (a hook that did not fire) must be rejected
+        if not proto_bad:
+            with open(ctrace) as f:
+                clines = f.readlines()
+            cand = [k for k, ln in enumerate(clines) if '"SetCtx"' in ln or '"Invoke"' in ln]
+            if cand:
+                k = cand[len(cand) // 2]
+                broken = os.path.join(work, "ctrace_broken.ndjson")
+                with open(broken, "w") as f:
+                    f.writelines(clines[:k] + clines[k + 1:])
+                t2, _, _ = run_tlc_raw(specdir, "TraceCall", broken, 300)
+                stats["binding_selftest"] = {"dropped_event": json.loads(clines[k]).get("ev"), "rejected": ("REJECTED" in t2) or ("is violated" in t2)}
+                if not stats["binding_selftest"]["rejected"]:
+                    raise Infra("binding self-test: the protocol trace with one event removed was still accepted by TraceCall")
         # per-goroutine outcomes against the sequential semantics
         ev_verd, g2, d2 = validate(specdir, etrace, workers=8)
         eevs = load_trace(etrace)
@@ -427,6 +454,7 @@ def c06_main(prop, tier, seed, a):
             "evaluations": nsched + total_evals, "distinct_nontrivial": len(eevs) + conc_recs,
             "rule": "schedule replay: every interleaving TLC enumerates for the configured call trees is forced on the real code (each on private and on shared compiled expressions) - distinct = goroutine outcomes recorded; free-running: distinct (goroutine, program, outcome) records, each validated against the sequential semantics",
             "exhaustive": True,
+            "binding_selftest": stats.get("binding_selftest"),
             "design_model_runs": stats["m_runs"], "schedules_replayed": nsched, "protocol_events_validated": len(cev), "goroutine_outcomes_validated": len(eevs),
             "free_running": {"goroutine_counts": cfgc["goroutines"], "duration_each": cfgc["dur"], "evaluations": total_evals, "records_validated": conc_recs, "race_reports": len(race_reports)},
         }
